@@ -406,11 +406,14 @@ class _rewrite_captured_vars(ast.NodeTransformer):
                     for a, d in zip(lm.args.kwonlyargs, lm.args.kw_defaults)
                 ]
 
+                # (a value the helper captures that can't be sent - `ValueError` - is the
+                # caller's to hear about, as it is for the lambda that was passed)
                 try:
                     helper_vars = global_getclosurevars(v)
+                except TypeError:
+                    helper_vars = None
+                if helper_vars is not None:
                     lm = _rewrite_captured_vars(helper_vars, self._inlining + (v,)).visit(lm)
-                except Exception:
-                    pass
                 # A name the helper leaves free (a function that stays a call by name) must
                 # not be taken for something bound where the helper is used.
                 if any(self.is_arg(n) for n in _free_names(lm)):
